@@ -38,6 +38,25 @@ extern void cmi_coroutine_context_init(struct cmi_coroutine *cp);
 /* System dependent, in port/x86-64/.../cmi_coroutine_context.c */
 extern void cmi_coroutine_stacklimits(unsigned char **top, unsigned char **bottom);
 
+#if defined(CIMBA_VERIF) && defined(__SANITIZE_ADDRESS__)
+/*
+ * Verification hook (off by default): AddressSanitizer must be told about
+ * every stack switch, see <sanitizer/common_interface_defs.h>.
+ */
+extern void __sanitizer_start_switch_fiber(void **fake_stack_save,
+                                           const void *bottom, size_t size);
+extern void __sanitizer_finish_switch_fiber(void *fake_stack_save,
+                                            const void **bottom_old,
+                                            size_t *size_old);
+
+/* First thing executed on a freshly started coroutine stack */
+void *cmi_verif_fiber_entry(struct cmi_coroutine *cp, void *context)
+{
+    __sanitizer_finish_switch_fiber(NULL, NULL, NULL);
+    return (*cp->cr_function)(cp, context);
+}
+#endif /* CIMBA_VERIF && __SANITIZE_ADDRESS__ */
+
 /*
  * create_main - Helper function to set up the dummy main coroutine
  */
@@ -249,7 +268,18 @@ extern void *cmi_coroutine_transfer(struct cmi_coroutine *to, void *msg)
     /* The actual context switch happens in assembly */
     void **fromstk = (void **)&(from->stack_pointer);
     void **tostk = (void **)&(to->stack_pointer);
+#if defined(CIMBA_VERIF) && defined(__SANITIZE_ADDRESS__)
+    void *verif_fake_stack = NULL;
+    const unsigned char *verif_bottom = (to->stack != NULL) ? to->stack
+                                                            : to->stack_limit;
+    __sanitizer_start_switch_fiber(
+        (from->status == CMI_COROUTINE_FINISHED) ? NULL : &verif_fake_stack,
+        verif_bottom, (size_t)(to->stack_base - verif_bottom));
+#endif
     void *ret = cmi_coroutine_context_switch(fromstk, tostk, msg);
+#if defined(CIMBA_VERIF) && defined(__SANITIZE_ADDRESS__)
+    __sanitizer_finish_switch_fiber(verif_fake_stack, NULL, NULL);
+#endif
 
     /* Possibly much later, when control has returned here again */
     cmb_assert_debug(cmi_coroutine_stack_valid(to));
